@@ -73,6 +73,8 @@ def make_file(rng, kind_, path):
                 spec = model.model_of(gen.build_doc(spec))   # the normal form the API stores
         except Exception:
             pass
+        from checks.c01_xml import foreign_safe
+        spec = foreign_safe(spec)     # what a foreign tool can state unambiguously in the 1.1 text formats
         info["model"] = spec
         if kind_ == "v11-xml":
             text = emit.xml_from_model(spec)
@@ -373,6 +375,12 @@ def run(ctx):
             rng.shuffle(kinds)
             case = {"kinds": kinds, "tool": tool, "recursive": rng.random() < 0.6, "explicit_out": rng.random() < 0.5,
                     "seed": "C17|%s|%d" % (ctx.seed, i), "space": rng.random() < 0.2}
+            if not ctx.quick() and tool != "format_converter":
+                # thorough: every composition under all four option combinations
+                for rec_, exp_ in ((True, True), (True, False), (False, True), (False, False)):
+                    c2 = dict(case, recursive=rec_, explicit_out=exp_)
+                    run_case(c2, ctx, sdir)
+                continue
             if tool == "format_converter":
                 case["format"] = rng.choice(FC_FORMATS)
                 if rng.random() < 0.6:
@@ -384,7 +392,7 @@ def run(ctx):
                 rec.sample(case)
             if ctx.time_left() < 0:
                 return
-    for j in range(ctx.pick(10, 200)):
+    for j in range(ctx.pick(10, 3000)):
         if not ctx.mine(j):
             continue
         rng = random.Random("C17big|%s|%d" % (ctx.seed, j))
